@@ -79,3 +79,11 @@ class CustomErr(Exception):
 
 class CustomValueErr(ValueError):
     pass
+
+
+class CustomKeyErr(KeyError):
+    """a KeyError subclass: str() of the KeyError family is repr(key), which the loader has a special path for"""
+
+
+class CustomLookupErr(LookupError):
+    pass
